@@ -820,6 +820,9 @@ def c12_sweep_family(quick: bool, rng: random.Random) -> list:
                 if rng.random() < 0.3:
                     u = rng.choice(undefined + ([] if noise else big))
                     seq.append({"k": "raw", "id": u, "as": "unknown", "pl": pl})
+                    if rng.random() < 0.6:
+                        # the same undefined id again right behind (a decoder that remembers the last id is fooled by it)
+                        seq.append({"k": "raw", "id": u, "as": "unknown", "pl": pl})
             # keep-alive sensitivity: after a tick with a ping in flight an undefined id must change nothing
             st += [("tick",), ("tick",)]
             pos = 0
